@@ -157,6 +157,130 @@ where
         · exact h5
         · exact ih h9 x hx
 
+/-- the fragments of the pipeline with `break_words`: the force-broken words, preceded by the
+    empty sentinel word when the initial indent is non-empty -/
+theorem pipeline_breakwords_shape (env : Env) (o : Opts) (hr : SplitterInRange env.isAlnum o.splitter)
+    (hbw : o.breakWords = true) (line : Text) (sw : Nat) (frs : List Word)
+    (h : pipeline env o line sw = some frs) :
+    ∃ sws : List Word, (∀ w ∈ sws, w.width = displayWidth env.cw w.word) ∧
+      frs = (if o.initialIndent.isEmpty then breakWords env.cw sw sws
+             else Word.from env.cw [] :: breakWords env.cw sw sws) := by
+  unfold pipeline at h
+  split at h
+  · simp at h
+  · next fw hfw =>
+    have hfrag : ∀ w ∈ fw, FragOk env.cw w := by
+      cases hs : o.sep with
+      | ascii =>
+        rw [hs] at hfw
+        simp only [findWords, Option.some.injEq] at hfw; subst hfw
+        intro w hw; obtain ⟨t, _, rfl⟩ := List.mem_map.mp hw; exact from_fragOk _ t
+      | unicode =>
+        rw [hs] at hfw
+        simp only [findWords] at hfw
+        unfold findWordsUnicode at hfw
+        simp only at hfw
+        split at hfw
+        · simp only [Option.some.injEq] at hfw; subst hfw
+          intro w hw; obtain ⟨t, _, rfl⟩ := List.mem_map.mp hw; exact from_fragOk _ t
+        · simp at hfw
+    split at h
+    · simp at h
+    · next sws hs =>
+      have s2 := (splitWords_text env o.splitter hr _ sws hfrag hs).2
+      simp only [hbw, if_true] at h
+      refine ⟨sws, fun w hw => (s2 w hw).2, ?_⟩
+      split at h
+      · next hi => simp only [Option.some.injEq] at h; rw [← h]; simp [hi]
+      · next hi => simp only [Option.some.injEq] at h; rw [← h]; simp [hi]
+
+/-- **every first-fit line, `break_words` on**: the part after the indent fits the width left by
+    the indent the line is rendered with, or it is a single fragment holding at most one
+    non-zero-width character (the property's exception; this includes the line that consists
+    of the indent alone when the first word cannot stand next to a non-empty initial indent).
+    H-norm as in `firstfit_line_width` (a theorem for ESC-free and for `SeqSafe` lines). -/
+-- @audit TW.C02.firstfit_every_line_breakwords
+theorem firstfit_every_line_breakwords (env : Env) (hsp : env.cw SP = 1) (mo : MinimaOracle Int) (o : Opts)
+    (hb : Builtin o.splitter) (halg : o.alg = .firstFit) (hbw : o.breakWords = true)
+    (line : Text) (nPrev : Nat) (frs : List Word)
+    (hpipe : pipeline env o line (o.width - displayWidth env.cw o.subsequentIndent) = some frs)
+    (hn : HNorm frs) :
+    ∃ groups : List (List Word),
+      wrapSingleLineSlow env mo o line nPrev = some (specLines o groups 0 nPrev) ∧
+      groups.flatten = frs ∧
+      ∀ k g, groups[k]? = some g →
+        displayWidth env.cw (groupSlice g) ≤ o.width - displayWidth env.cw (indentOf o (nPrev + k)) ∨
+        ∃ f, g = [f] ∧ nzFrom env.cw .normal f.word ≤ 1 := by
+  obtain ⟨groups, h1, h2, h3⟩ := firstfit_line_width env hsp mo o hb halg line nPrev frs hpipe hn
+  obtain ⟨_, c2⟩ := pipeline_contig env o (builtin_inRange _ _ hb) line _ frs hpipe
+  obtain ⟨sws, hsw, hshape⟩ := pipeline_breakwords_shape env o (builtin_inRange _ _ hb) hbw line _ frs hpipe
+  refine ⟨groups, h1, h2, ?_⟩
+  intro k g hk
+  match g, hk with
+  | [], _ => left; simp [groupSlice, displayWidth, dwFrom]
+  | a :: b :: r, hk => exact Or.inl (h3 k _ hk (by simp)).1
+  | [f], hk =>
+    have hfm : f ∈ frs := by
+      rw [← h2]; exact List.mem_flatten.mpr ⟨[f], List.mem_of_getElem? hk, by simp⟩
+    have hslice : displayWidth env.cw (groupSlice [f]) = f.width := by
+      simp [groupSlice, (c2 f hfm).2]
+    rw [hslice]
+    -- the sentinel: an empty word
+    by_cases hsent : f.word = []
+    · right; exact ⟨f, rfl, by simp [hsent, nzFrom]⟩
+    · by_cases hk0 : nPrev + k = 0 ∧ o.initialIndent.isEmpty = false
+      · -- first line of the output with a non-empty initial indent: the fragment is the sentinel
+        exfalso
+        have hk' : k = 0 := by omega
+        subst hk'
+        have hne : ¬ (o.initialIndent.isEmpty = true) := by simp [hk0.2]
+        rw [if_neg hne] at hshape
+        cases groups with
+        | nil => simp at hk
+        | cons g0 rest =>
+          simp only [List.getElem?_cons_zero, Option.some.injEq] at hk
+          subst hk
+          rw [hshape] at h2
+          simp only [List.flatten_cons, List.cons_append, List.nil_append, List.cons.injEq] at h2
+          apply hsent
+          rw [h2.1]; simp [Word.from, trimEndSp]
+      · have hbnd : f ∈ breakWords env.cw (o.width - displayWidth env.cw o.subsequentIndent) sws := by
+          rw [hshape] at hfm
+          split at hfm
+          · exact hfm
+          · rcases List.mem_cons.mp hfm with rfl | hfm
+            · exact absurd (by simp [Word.from, trimEndSp]) hsent
+            · exact hfm
+        rcases broken_fragment_bound env.cw _ sws hsw f hbnd with hle | hnz
+        · left
+          unfold indentOf
+          by_cases hz : nPrev + k = 0
+          · have hie : o.initialIndent.isEmpty = true := by
+              cases hi : o.initialIndent.isEmpty with
+              | true => rfl
+              | false => exact absurd ⟨hz, hi⟩ hk0
+            have : o.initialIndent = [] := by simpa using hie
+            simp only [hz, if_true, this, displayWidth, dwFrom]
+            unfold displayWidth at hle
+            omega
+          · simp only [hz, if_false]; exact hle
+        · right; exact ⟨f, rfl, by omega⟩
+
+/-- the same with H-norm discharged: every safe line (`SeqSafe`) -/
+-- @audit TW.C02.firstfit_every_line_breakwords_safe
+theorem firstfit_every_line_breakwords_safe (env : Env) (hsp : env.cw SP = 1) (mo : MinimaOracle Int) (o : Opts)
+    (hb : Builtin o.splitter) (halg : o.alg = .firstFit) (hbw : o.breakWords = true)
+    (line : Text) (hsafe : SeqSafe o.splitter line) (nPrev : Nat) (frs : List Word)
+    (hpipe : pipeline env o line (o.width - displayWidth env.cw o.subsequentIndent) = some frs) :
+    ∃ groups : List (List Word),
+      wrapSingleLineSlow env mo o line nPrev = some (specLines o groups 0 nPrev) ∧
+      groups.flatten = frs ∧
+      ∀ k g, groups[k]? = some g →
+        displayWidth env.cw (groupSlice g) ≤ o.width - displayWidth env.cw (indentOf o (nPrev + k)) ∨
+        ∃ f, g = [f] ∧ nzFrom env.cw .normal f.word ≤ 1 :=
+  firstfit_every_line_breakwords env hsp mo o hb halg hbw line nPrev frs hpipe
+    (pipeline_hnorm env o hb line hsafe _ frs hpipe)
+
 /-! the repaired defect F1, through the whole model (a test, labelled as such): later paragraphs
     are measured against the subsequent indent -/
 example :
